@@ -16,7 +16,7 @@ QUICK_SCALE = 1.5
 RULE = ('Three generators of specification texts: (1) grammar-derived files (typed formulas printed with random aliases/separators, '
         'wrapped with specification header, declarations, constants, several assertions, comments, odd whitespace); (2) token-level '
         'mutations of (1): delete/duplicate/swap/replace a token, truncate, insert characters outside the lexer alphabet, append trailing '
-        'tokens, swap interval bounds, hex/binary literals, undeclared bound constant, undeclared identifier, dotted identifiers; (3) token '
+        'tokens, swap interval bounds, hex/binary literals, undeclared bound constant, undeclared identifier, dotted identifiers, literals of extreme magnitude as bounds (1e5000, 4400 digits), the empty text / white space / a comment only; files may import a type from a module that exists or not (from M import T, a variable of that type and one of its fields), carry a ROS topic annotation of a variable / constant / unknown name, and constants declared through the API may have non-finite values (inf, nan, 1e400); (3) token '
         'soup of 1-40 vocabulary tokens; thorough tier: (4) coverage-guided atheris/libFuzzer campaigns over token sequences with the same oracle inside the target. Oracle: parse() returns or raises RTAMTException only; if it returns, an independent tokenizer '
         '+ recogniser (vlib/lang.py) accepts the text, no character was skipped, every interval satisfies 0 <= begin <= end, every bound '
         'identifier is a declared constant, and the first evaluate() on a 4-sample data set supplying every referenced variable returns '
@@ -61,6 +61,13 @@ def spec_files(draw, tier):
     consts = []
     if draw(st.integers(0, 4)) == 0:
         toks += ['specification', 'spec_1']
+    typed = None
+    if draw(st.integers(0, 5)) == 0:
+        # a type imported from a module (existing or not) and a variable of that type whose field is used below
+        mod, typ = draw(st.sampled_from([('fractions', 'Fraction'), ('math', 'Foo'), ('nosuchmod', 'Foo'), ('collections', 'OrderedDict'),
+                                          ('fractions', 'Fraction'), ('os', 'path'), ('rtamt', 'Nope')]))
+        toks += ['from', mod, 'import', typ]
+        typed = typ
     for v in vs:
         how = draw(st.sampled_from(['api', 'api', 'text', 'text-io', 'implicit']))
         if how == 'api':
@@ -69,12 +76,18 @@ def spec_files(draw, tier):
             toks += ['float', v]
         elif how == 'text-io':
             toks += [draw(st.sampled_from(['input', 'output'])), 'float', v]
+    if typed:
+        toks += [typed, 'obj']
+    if draw(st.integers(0, 5)) == 0:
+        # ROS-style annotation of a variable, a constant, the output or a name that does not exist
+        toks += ['@', 'topic', '(', draw(st.sampled_from(vs + ['kc', 'out', 'nosuch', 'obj'])), ',', draw(st.sampled_from(['foo', 'a/b', 'x']))] + [')']
     use_const = draw(st.integers(0, 3)) == 0
     if use_const:
         if draw(st.booleans()):
             toks += ['const', 'int', 'kc', '=', '2']
         else:
-            consts.append(['kc', 'int', '2'])
+            # declared through the API; now and then with a value that is not a finite number
+            consts.append(['kc', 'int', '2'] if draw(st.integers(0, 5)) else ['kc', 'float', draw(st.sampled_from(['inf', 'nan', '-inf', '1e400', '-2', '1e-400', '2.5']))])
     names = []
     for a in range(n_assert):
         f, _ = draw(F.formulas(FULL, variables=vs + names))
@@ -106,8 +119,18 @@ def spec_files(draw, tier):
         toks += out + [';']
         if name and a < n_assert - 1:
             names.append(name)
+    if typed and draw(st.booleans()):
+        idx = [i for i, t in enumerate(toks) if t in vs and i > 0 and toks[i - 1] not in ('float', 'input', 'output')]
+        if idx:
+            toks[draw(st.sampled_from(idx))] = 'obj.' + draw(st.sampled_from(['numerator', 'real', 'a']))
     if toks and toks[-1] == ';' and draw(st.integers(0, 3)) == 0:
         toks = toks[:-1]
+    # odd layouts of the whole text
+    lay = draw(st.integers(0, 11))
+    if lay == 0:
+        toks = toks + ['\n']
+    elif lay == 1:
+        toks = ['// header\n'] + toks
     return {'tokens': toks, 'declare': declare, 'consts': consts}
 
 
@@ -121,7 +144,7 @@ def mutated(draw, tier):
         if not toks:
             break
         kind = draw(st.sampled_from(['delete', 'dup', 'swap', 'replace', 'truncate', 'junk', 'junk-in-token', 'trail', 'swap-bounds',
-                                     'weird-literal', 'undeclared-bound', 'undeclared-id', 'dotted', 'unit', 'unless-plain', 'paren']))
+                                     'weird-literal', 'undeclared-bound', 'undeclared-id', 'dotted', 'unit', 'unless-plain', 'paren', 'huge-bound', 'nothing-left']))
         i = draw(st.integers(0, len(toks) - 1))
         kinds.append(kind)
         if kind == 'delete':
@@ -145,6 +168,18 @@ def mutated(draw, tier):
                 if t == '[' and j + 3 < len(toks):
                     toks[j + 1], toks[j + 3] = draw(st.sampled_from(['3', '5', '2.5', '1e400', '9' * 310, '1e309'])), draw(st.sampled_from(['0', '1', '2']))
                     break
+        elif kind == 'huge-bound':
+            # a literal of extreme magnitude as the upper bound (or both bounds) of an interval
+            for j, t in enumerate(toks):
+                if t == '[' and j + 3 < len(toks):
+                    big = draw(st.sampled_from(['1e5000', '1e400', '1e4299', '1e4301', '9' * 4400, '1e-5000', '0.' + '0' * 4400 + '1', '1e999', '1E+5000']))
+                    toks[j + 3] = big
+                    if draw(st.integers(0, 3)) == 0:
+                        toks[j + 1] = big
+                    break
+        elif kind == 'nothing-left':
+            # the empty text, white space only, a comment only
+            toks = draw(st.sampled_from([[], [' '], ['\n'], ['// nothing\n'], ['/* nothing */'], ['\t', '\n']]))
         elif kind == 'weird-literal':
             toks[i] = draw(st.sampled_from(['0x1F', '0b101', '1_000', '3.', '.5', '1e3', '1E-2', '007', '1e', '0x', '9' * 25, '1e400']))
         elif kind == 'undeclared-bound':
@@ -201,8 +236,6 @@ def check(case):
     labels = []
     for m in case.get('mutations', []):
         labels.append('mut:' + m)
-    if not text:
-        return DISCARD('empty', labels)
     ntok = len(lang.tokenize(text)[0])
     if ntok > 400:
         return DISCARD('too-long', labels)
@@ -280,6 +313,9 @@ def check(case):
         # a time-out and an exhausted memory limit are inconclusive)
         if huge:
             return PASS(ntemp >= 1, labels + ['huge-bound:evaluate-skipped'])
+        if any(getattr(node, 'field', None) for root in ast.specs for node in walk(root)):
+            # fields of object-valued variables: the 4-sample data set below holds plain numbers (objects are C17's lane struct)
+            return PASS(ntemp >= 1, labels + ['object-field:evaluate-skipped'])
         names = set()
         for root in ast.specs:
             for node in walk(root):
